@@ -74,5 +74,10 @@ CHECKS += [
          text="Every sequence of up to 2 (thorough 3) history operations (re-seeding or drawing from NumPy's global generator, training any other estimator) is executed before each fit under test and the result must be bit-identical to the fit on the empty history; all n! sample orders and all K! class renamings must give the same model up to rounding for k-means/GMM (explicit start), ISV, JFA (list, bag, Dask array), WCCN and whitening.",
          note=TRUST),
 ]
+CHECKS += [
+    dict(id="C15", technique="bounded exhaustive enumeration of (configuration, affine map) pairs, both sides executed on the real code (metamorphic oracle); known finding K1 classified by the defective formula",
+         text="Every configuration of seven families (GMM-ML, GMM-MAP, k-means, linear scoring, ISV, JFA, i-vector) is run on the original features and on a*x+b for 16 per-feature maps (negative, mixed 2^10/2^-10 scales, shifts up to 2^18; k-means also quarter turns, (x,y)->(x-y,x+y), uniform scalings) with parameters, floors, subspaces and statistics transformed accordingly; means/variances/weights/log-likelihoods/centroids/subspaces must transform and scores/factors/i-vectors must stay. Maps beyond the conditioning of raw-moment statistics are counted, not asserted.",
+         note=TRUST),
+]
 _PENDING = "check not built yet in this round (planned, see DESIGN.md section 10); not claimed until it runs clean"
 NOT_APPLICABLE = [dict(property_id="C%02d" % i, reason=_PENDING) for i in range(1, 21) if "C%02d" % i not in {c["id"] for c in CHECKS}]
